@@ -179,13 +179,13 @@ def pair(sx, setting, api, nmsg):
             if api == "empty" and k != 1:
                 pl = b""
             p = snd.p
-            dnc = (api == "donotcompress") or (api == "mixed" and k == 1)
+            dnc = (api == "donotcompress") or (api in ("mixed", "streaming-mixed") and k == 1)
             if api in ("message", "donotcompress", "mixed", "empty"):
                 p.sendMessage(pl, isBinary=True, doNotCompress=dnc)
             elif api == "fragmented":
                 p.sendMessage(pl, isBinary=True, fragmentSize=3)
-            elif api == "streaming":
-                p.beginMessage(isBinary=True)
+            elif api in ("streaming", "streaming-mixed"):
+                p.beginMessage(isBinary=True, doNotCompress=dnc)
                 p.sendMessageFrame(pl[:1])
                 p.sendMessageFrame(pl[1:])
                 p.endMessage()
@@ -513,7 +513,7 @@ def units(tier):
                 for w in wbs:
                     U.append(("lattice/%d%d%d/%d" % (a, b, c, w), "lattice", dict(o_acc_nct=a, o_acc_mwb=b, o_req_nct=c, o_req_mwb=w), dict(weight=5)))
     for si in range(len(SETTINGS)):
-        for api in ("message", "fragmented", "streaming", "prepared", "donotcompress", "mixed", "empty"):
+        for api in ("message", "fragmented", "streaming", "streaming-mixed", "prepared", "donotcompress", "mixed", "empty"):
             U.append(("pair/%d/%s" % (si, api), "pair", dict(setting=si, api=api, nmsg=3 if q else 4), dict(weight=3)))
     for si in range(len(BZ_SETTINGS)):
         for api in ("message", "fragmented", "streaming", "empty"):
